@@ -15,14 +15,14 @@ def consts(scope, W=1, X32Bit=4, NSys=2, MaxSkip=255, dev="{}"):
 
 
 def mc_job(scope, invariants, name=None, **kw):
-    cfg = consts(scope, **kw) + "SPECIFICATION Spec\nINVARIANTS %s\nCHECK_DEADLOCK FALSE\n" % " ".join(invariants)
-    return dict(module="CompileMC", cfg=cfg, name=name or ("MC_%s_m%d" % (scope, kw.get("MaxSkip", 255))), timeout=3000)
+    cfg = consts(scope, **kw) + "  NShards = 16\nSPECIFICATION Spec\nINVARIANTS %s\nCHECK_DEADLOCK FALSE\n" % " ".join(invariants)
+    return dict(module="CompileMC", cfg=cfg, name=name or ("MC_%s_m%d" % (scope, kw.get("MaxSkip", 255))), timeout=3000, java_opts="-Xss512m")
 
 
-def gen_job(ctx, scope, stride=1, offset=0, le=True, name=None, **kw):
+def gen_job(ctx, scope, stride=1, offset=0, le=True, name=None, with_model=True, **kw):
     out = ctx.path("cases_%s.ndjson" % (name or scope))
-    cfg = consts(scope, **kw) + "  OutFile = \"%s\"\n  Stride = %d\n  Offset = %d\n  Le = %s\n" % (
-        out, stride, offset % stride if stride > 1 else 0, "TRUE" if le else "FALSE")
+    cfg = consts(scope, **kw) + "  OutFile = \"%s\"\n  Stride = %d\n  Offset = %d\n  Le = %s\n  WithModel = %s\n" % (
+        out, stride, offset % stride if stride > 1 else 0, "TRUE" if le else "FALSE", "TRUE" if with_model else "FALSE") + "SPECIFICATION Spec\nCHECK_DEADLOCK FALSE\n"
     return dict(module="CompileGen", cfg=cfg, name="Gen_" + (name or scope), workers=1, timeout=3000, java_opts="-Xss512m"), out
 
 
@@ -88,7 +88,8 @@ def run_family(ctx, plan, mine, decision_owner):
                 k2 = dict(kw)
                 k2["MaxSkip"] = ms
                 mcjobs.append(mc_job(p["scope"], p["mc"], name="MC_%s_%d_m%d" % (p["scope"], i, ms), **k2))
-        j, out = gen_job(ctx, p["scope"], stride=p.get("stride", 1), offset=ctx.seed, le=(i + ctx.seed) % 2 == 0, name="%s_%d" % (p["scope"], i), **kw)
+        j, out = gen_job(ctx, p["scope"], stride=p.get("stride", 1), offset=ctx.seed, le=(i + ctx.seed) % 2 == 0, name="%s_%d" % (p["scope"], i),
+                          with_model=p.get("with_model", True), **kw)
         genjobs.append(j)
         outs.append(out)
     results = ctx.tlc_many(mcjobs + genjobs, parallel=4)
